@@ -35,4 +35,12 @@ CHECKS = {
         "require_classes": ["find:none", "find:error", "find:found"],
         "assumptions": ["buffers start 8-aligned (precondition of the property)"],
     },
+    "C20": {
+        "bin": "c20",
+        "cfgs": {"quick": ["dD", "rD"], "thorough": ["dD", "rD", "rN"]},
+        "technique": "exhaustive enumeration of the complete 32-bit domain (release) / of a boundary lattice (dev) against tabulated reference conversions",
+        "rule": "one leaf per block of a sweep (2^20 consecutive values, or 1024 lattice rows), per framebuffer type byte and for the constants; every value of the stated domain is evaluated exactly once per law; distinct by construction; all leaves non-trivial",
+        "require_classes": ["sweep:block", "fbtype:known", "fbtype:unknown", "magic"],
+        "assumptions": [],
+    },
 }
